@@ -1585,6 +1585,324 @@ def _tab23_search(u, fn, searches, R):
     R.floor('TAB23', 'quotes found by searching and judged by the bytes in front of them', n, 1)
 
 
+# ---- OUT9 the decoded string fits the block allocated for it -----------------------------------------------------------------------
+
+def _lin9(u, e, env):
+    """(const, {symbol: coeff}) of a size expression over pointers and counters of parse_string; None when not linear.
+    Symbols: 'cur' for B->content + B->offset, variable names otherwise."""
+    e = strip_casts(e)
+    v = const_val(e)
+    if v is not None:
+        return (v, {})
+    k = e.get('k')
+    if k == 'bin' and e['op'] in ('+', '-'):
+        l, r = strip_casts(e['l']), strip_casts(e['r'])
+        if e['op'] == '+':
+            for (x, y) in ((l, r), (r, l)):
+                if x.get('k') == 'mem' and x['f'] == 'content' and y.get('k') == 'mem' and y['f'] == 'offset' and \
+                        expr_str(strip_casts(x['b'])) == expr_str(strip_casts(y['b'])):
+                    return (0, {'cur': 1})
+        a, b = _lin9(u, l, env), _lin9(u, r, env)
+        if a is None or b is None:
+            return None
+        sg = 1 if e['op'] == '+' else -1
+        t = dict(a[1])
+        for kk, vv in b[1].items():
+            t[kk] = t.get(kk, 0) + sg * vv
+        return (a[0] + sg * b[0], {kk: vv for kk, vv in t.items() if vv != 0})
+    if k == 'ref':
+        if e['d'] in env:
+            return env[e['d']]
+        return (0, {e['n']: 1})
+    return None
+
+
+def out9(units, R, fn_name='parse_string'):
+    """The decoder of parse_string writes into a block whose size was computed by the scan in front of it; that the text fits is a
+    count over the whole literal, assembled here from facts about single steps:
+      scan     every step that counts an escape (K += 1) covers two bytes, no step counts more than one, K starts at 0;
+      block    size >= (E - S) - K + 1 as linear expressions, E the end the decoder runs to, S where decoder and scan start;
+      decoder  starts where the scan started, stops at E, and every turn of its loop writes no more than it consumes less the
+               escapes the scan can have counted in those bytes: one byte for one plain byte, ceil(a/2) bytes for a bytes that
+               begin with a backslash (for the UTF-16 arm, whose callee moves both cursors: every successful path of
+               utf16_literal_to_utf8 writes at most half of what it reports as consumed; value-set engine of TAB6);
+      end      one more byte, the terminator, after the loop.
+    Together: bytes written <= (E - S) - K + 1 <= size.  (That the bytes of a \\uXXXX sequence are hex digits, hence whole scan
+    steps, is TAB21/TAB6's finding.)"""
+    from . import bytepath as bp
+    from . import codeset
+    u = units['cJSON.c']
+    fn = u.functions.get(fn_name)
+    if fn is None or fn.body is None:
+        raise AnalysisBroken('OUT9: %s not found' % fn_name)
+    ex = bp.explore(u, fn)
+    BS = ord('\\')
+    heads = {}
+    for sg in bp.loop_segments(ex):
+        heads.setdefault(sg.start, []).append(sg)
+    # the decoder: the loop whose turns write through a cursor and read through another
+    dec = []
+    for h, sgs in heads.items():
+        cont = [sg for sg in sgs if sg.end == ('head', h)]
+        outs = {w[3] for sg in cont for w in sg.writes if w[3] is not None}
+        ins = {c for sg in cont for c in sg.readers}
+        if len(outs) == 1 and len(ins) == 1:
+            dec.append((h, next(iter(ins)), next(iter(outs)), sgs))
+    if len(dec) != 1:
+        raise AnalysisBroken('OUT9: the decoding loop of %s cannot be identified (%d candidates)' % (fn_name, len(dec)))
+    H2, c2, o, dsegs = dec[0]
+    # the scan in front of it (forward form), if there is one
+    scan = []
+    for h, sgs in heads.items():
+        cont = [sg for sg in sgs if sg.end == ('head', h)]
+        if h != H2 and cont and not any(w[3] is not None for sg in cont for w in sg.writes) and any(sg.end == ('head', H2) for sg in sgs):
+            cur = {c for sg in cont for c in sg.readers}
+            if len(cur) == 1:
+                scan.append((h, next(iter(cur)), sgs))
+    searches = _quote_search_calls(fn)
+    if searches:
+        scan = []       # the end is found by searching: there is no step-by-step scan to take facts from
+    if len(scan) > 1 or (not scan and not searches):
+        raise AnalysisBroken('OUT9: the scan in front of the decoder of %s cannot be identified' % fn_name)
+    cfg = fn.cfg()
+    line2 = min(sg.line for sg in dsegs if sg.end == ('head', H2))
+    # E: what the decoder's cursor is compared with at the head of its loop
+    E = None
+    hn = cfg.nodes[H2] if isinstance(H2, int) and H2 < len(cfg.nodes) else None
+    for m in cfg.nodes:
+        if m.kind != 'branch' or m.expr is None:
+            continue
+        e = strip_casts(m.expr)
+        if e.get('k') == 'bin' and e['op'] in ('<', '!=') and is_ref(e['l']) and strip_casts(e['l'])['n'] == c2 and is_ref(e['r']) and \
+                any(sg.end == ('head', H2) for sg in dsegs) and m.line == (hn.line if hn is not None else m.line):
+            E = strip_casts(e['r'])
+            guard = m
+            break
+    if E is None:
+        raise AnalysisBroken('OUT9: the bound of the decoding loop of %s (cursor < end) not found' % fn_name)
+    if any(sg.adv(E['n']) not in (0,) for sg in dsegs if sg.end == ('head', H2) and E['n'] in sg.pos):
+        raise AnalysisBroken('OUT9: the end %s moves inside the decoding loop' % E['n'])
+    # where the cursors start and what the block's size is
+    inits = {}
+    for d_ in fn.locals():
+        if 'init' in d_:
+            inits.setdefault(d_['n'], []).append(d_['init'])
+    for a in assignments(fn):
+        if is_ref(a['l']):
+            inits.setdefault(strip_casts(a['l'])['n'], []).append(a['r'] if a['op'] == '=' else None)
+    stepped = {strip_casts(x['e'])['n'] for x in fn.nodes() if x.get('k') == 'un' and x.get('op') in ('pre++', 'pre--', 'post++', 'post--')
+               and is_ref(x['e'])}
+
+    def start_of(name):
+        vals = [v for v in inits.get(name, []) if v is None or not (is_null_const(v) or strip_casts(v).get('null'))]
+        vals = [v for v in vals if v is not None]       # steps of the cursor itself are not its start
+        forms = {repr(_lin9(u, v, {})) for v in vals}
+        if len(forms) != 1 or 'None' in forms:
+            return None
+        return _lin9(u, vals[0], {})
+    S2 = start_of(c2)
+    if S2 is None:
+        raise AnalysisBroken('OUT9: where the decoder of %s starts (%s) is not one linear position' % (fn_name, c2))
+    n = 0
+    K = None
+    if scan:
+        H1, c1, ssegs = scan[0]
+        S1 = start_of(c1)
+        # E is the scan cursor, or a copy of it made behind the scan
+        same = E['n'] == c1 or [strip_casts(v).get('n') for v in inits.get(E['n'], []) if v is not None and
+                                not (is_null_const(v) or strip_casts(v).get('null'))] == [c1]
+        n += 1
+        R.ob('OUT9', fn, None, 'the decoder runs over what the scan measured', same and S1 == S2,
+             'both start at %s and the decoder stops where the scan did (%s)' % (S2, E['n']) if same and S1 == S2 else
+             'scan: from %s to %s; decoder: from %s to %s' % (S1, c1, S2, E['n']), key='same-region', line=line2)
+    # the block
+    root = None
+    for sg in ex.segments:
+        if sg.end == ('head', H2) and sg.start != H2 and o in sg.pos:
+            r_ = sg.pos[o][0]
+            if r_ and r_[0] == 'a' and sg.pos[o][1] == 0:
+                root = r_
+    if root is None:
+        raise AnalysisBroken('OUT9: the output cursor %s does not start at the beginning of a block allocated in %s' % (o, fn_name))
+    allocs = [a for a in assignments(fn) if is_ref(a['l']) and strip_casts(a['l'])['n'] == root[1] and a['op'] == '=' and
+              strip_casts(a['r']).get('k') == 'call' and strip_casts(a['r']).get('args')]
+    if len(allocs) != 1:
+        raise AnalysisBroken('OUT9: %d allocations of %s in %s' % (len(allocs), root[1], fn_name))
+    size_e = strip_casts(allocs[0]['r'])['args'][-1] if callee_name(strip_casts(allocs[0]['r'])) in ('realloc',) else strip_casts(allocs[0]['r'])['args'][0]
+    # single-definition integer locals are what they were defined as (allocation_length)
+    env = {}
+    for _round in range(3):
+        for d_ in fn.locals():
+            if u.ty(d_['ty'])['c'] != 'int':
+                continue
+            vals = [v for v in inits.get(d_['n'], [])]
+            vals = [v for v in vals if not (v is not None and const_val(v) == 0 and len(vals) > 1)]
+            if len(vals) == 1 and vals[0] is not None and d_['n'] not in stepped:
+                l_ = _lin9(u, vals[0], env)
+                if l_ is not None and d_['n'] not in l_[1]:
+                    env[d_['d']] = l_
+    size = _lin9(u, size_e, env)
+    if size is None:
+        raise AnalysisBroken('OUT9: the size %s of the output block is not linear' % expr_str(size_e)[:60])
+    # pointers that still stand where they started when the block is allocated
+    terms = dict(size[1])
+    const = size[0]
+    if c2 in terms:
+        k_ = terms.pop(c2)
+        const += k_ * S2[0]
+        for kk, vv in S2[1].items():
+            terms[kk] = terms.get(kk, 0) + k_ * vv
+    # need = (E - S2) - K + 1
+    need_terms = {E['n']: 1}
+    for kk, vv in S2[1].items():
+        need_terms[kk] = need_terms.get(kk, 0) - vv
+    need_const = -S2[0] + 1
+    diff = {kk: terms.get(kk, 0) - need_terms.get(kk, 0) for kk in set(terms) | set(need_terms)}
+    diff = {kk: vv for kk, vv in diff.items() if vv != 0}
+    counters = [kk for kk, vv in diff.items() if vv == -1 and kk in {d_['n'] for d_ in fn.locals() if u.ty(d_['ty'])['c'] == 'int'}]
+    if len(counters) == 1 and scan:
+        K = counters[0]
+        diff.pop(K)
+    elif len(counters) == 1 and searches:
+        # search form: the count may only grow by one per quote that was found and judged escaped (an odd run of backslashes in
+        # front of it): each of those is a two-byte escape of its own for the decoder
+        Kn = counters[0]
+        odd_edges = []
+        for m in cfg.nodes:
+            if m.kind != 'branch' or m.expr is None:
+                continue
+            e = strip_casts(m.expr)
+            pc = cmp_parts(e)
+            core, even_label = e, None
+            if pc is not None and pc[1] in ('==', '!=') and pc[2] in (0, 1):
+                core = strip_casts(pc[0])
+                even_label = 'T' if (pc[1] == '==') == (pc[2] == 0) else 'F'
+            else:
+                neg = False
+                while core.get('k') == 'un' and core['op'] == '!':
+                    neg = not neg
+                    core = strip_casts(core['e'])
+                even_label = 'T' if neg else 'F'
+            if core.get('k') == 'bin' and ((core['op'] == '&' and const_val(core['r']) == 1) or (core['op'] == '%' and const_val(core['r']) == 2)):
+                odd_edges.append((m.id, 'F' if even_label == 'T' else 'T'))
+        steps_ok = bool(odd_edges)
+        for m in cfg.nodes:
+            for ev in node_effects(m):
+                if ev.kind in ('incdec', 'store') and is_ref(ev.lhs) and strip_casts(ev.lhs)['n'] == Kn:
+                    one = (ev.kind == 'incdec' and ev.delta == 1) or (ev.kind == 'store' and ev.node['op'] == '=' and const_val(ev.node['r']) == 0)
+                    behind_odd = ev.kind == 'store' or guarded_by(cfg, m.id, lambda nd, l: l is not None and (nd.id, l[0]) in odd_edges)
+                    on_inner_cycle = False
+                    if ev.kind == 'incdec':
+                        sn_ids = {cfg.node_of_expr(c_['id']).id for c_ in searches if cfg.node_of_expr(c_['id']) is not None}
+                        seen, work = set(), [y for (y, _l) in cfg.succ[m.id]]
+                        while work:
+                            x = work.pop()
+                            if x == m.id:
+                                on_inner_cycle = True
+                                break
+                            if x in seen or x in sn_ids:
+                                continue
+                            seen.add(x)
+                            work.extend(y for (y, _l) in cfg.succ[x])
+                    if not one or not behind_odd or on_inner_cycle:
+                        steps_ok = False
+        if not steps_ok:
+            raise AnalysisBroken('OUT9: %s: the size of the output block is reduced by %s, which is not a count of quotes found behind an odd '
+                                 'run of backslashes; this way of saving bytes is not modelled' % (fn.where(allocs[0]), Kn))
+        K = None
+        diff.pop(Kn)
+        n += 1
+        R.ob('OUT9', fn, allocs[0], 'the block is smaller than the literal only by one byte per escaped quote that was found', True, Kn, key='k-search')
+    slack = const - need_const
+    n += 1
+    okb = not diff and slack >= 0
+    R.ob('OUT9', fn, allocs[0], 'the output block has room for every byte of the literal that is not saved by a counted escape, and the terminator',
+         okb, 'size = (%s - start)%s + 1 + %d' % (E['n'], ' - %s' % K if K else '', slack) if okb else
+         'size %s against the %s - start%s + 1 bytes the decoder can write: %s' % (
+             expr_str(size_e)[:50], E['n'], ' - %s' % K if K else '',
+             ('short by %d' % -slack) if not diff else 'terms left over %s' % sorted(diff.items())), key='block')
+    # the scan's counter
+    if K is not None:
+        H1, c1, ssegs = scan[0]
+        entry = [sg for sg in ex.segments if sg.start == 'entry' and sg.end == ('head', H1)]
+        zero = entry and all(sg.vals.get(K) == ('k', 0) for sg in entry)
+        n += 1
+        R.ob('OUT9', fn, None, 'the count of saved bytes starts at 0', bool(zero), K, key='k-init', line=line2)
+        worst = None
+        for sg in ssegs:
+            if sg.end[0] != 'head':
+                continue
+            dv = sg.vals.get(K)
+            a_ = sg.adv(c1)
+            if dv is None or dv[0] != 'd' or a_ is None:
+                worst = worst or (sg.line, 'the step or the count on a path ending at line %d is not known' % sg.line)
+            elif dv[1] < 0 or dv[1] > max(a_ - 1, 0) or dv[1] > 1:
+                worst = worst or (sg.line, 'a step of %d byte(s) counts %d saved' % (a_, dv[1]))
+        n += 1
+        R.ob('OUT9', fn, None, 'a step of the scan counts one saved byte at most, and only when it covers two bytes', worst is None,
+             K if worst is None else worst[1], key='k-step', line=line2)
+    # the decoder's turns
+    worst = None
+    ncall = 0
+    for sg in dsegs:
+        if sg.end != ('head', H2):
+            continue
+        a_ = sg.adv(c2)
+        ws = [w for w in sg.writes if w[3] == o]
+        first = sg.bytes_at(c2)
+        led = first != bp.ALL and first == frozenset([BS])
+        if a_ is None:
+            if ws or not led:
+                worst = worst or 'a turn ending at line %d consumes an unknown number of bytes' % sg.line
+            ncall += 1
+            continue
+        moved = sg.adv(o)
+        if moved is None or moved != len(ws) or sorted(w[1] for w in ws) != list(range(len(ws))):
+            worst = worst or 'a turn ending at line %d writes at positions that are not consecutive' % sg.line
+            continue
+        allowed = (a_ + 1) // 2 if led else (1 if (a_ == 1 and (first == bp.ALL or BS not in first)) else 0)
+        if first != bp.ALL and BS in first and not led:
+            worst = worst or 'a turn ending at line %d treats the backslash together with other bytes' % sg.line
+        elif len(ws) > allowed:
+            worst = worst or 'a turn ending at line %d consumes %d byte(s) and writes %d' % (sg.line, a_, len(ws))
+    n += 1
+    R.ob('OUT9', fn, None, 'every turn of the decoder writes no more than it consumes less the escapes counted there', worst is None,
+         'one for one, one for two' if worst is None else worst, key='turns', line=line2)
+    if ncall:
+        # the arm whose callee moves both cursors
+        callee = None
+        for c in fn.calls():
+            g = u.functions.get(callee_name(c))
+            if g is not None and any(strip_casts(a).get('k') == 'un' and strip_casts(a)['op'] == '&' and
+                                     strip_casts(strip_casts(a)['e']).get('n') == o for a in c['args']):
+                callee = g
+        if callee is None:
+            raise AnalysisBroken('OUT9: a turn of the decoder of %s consumes an unknown number of bytes and no callee is handed the output cursor' % fn_name)
+        d2 = codeset.Decoder(u, callee)
+        badp = None
+        npaths = 0
+        for (pth, r, node) in d2.run():
+            rv = d2.fn_of(r, [])() if r is not None and not codeset._vars_in(r) else None
+            if rv == 0:
+                continue
+            if rv is None or pth.advance in (None, '?') or codeset._vars_in(pth.advance or ''):
+                raise AnalysisBroken('OUT9: what %s writes or returns on the path ending at line %d is not known' % (callee.name, node.line))
+            adv = d2.fn_of(pth.advance, [])()
+            npaths += 1
+            if 2 * adv > rv or (pth.writes and max(pth.writes) >= adv):
+                badp = badp or (node.line, rv, adv)
+        n += 1
+        R.ob('OUT9', callee, None, 'a converted escape writes at most half of the bytes it reports as consumed', badp is None and npaths > 0,
+             '%d successful paths' % npaths if badp is None else 'the path ending at line %d reports %d consumed and writes %d' % badp, key='callee')
+    # the terminator
+    tails = [sg for sg in dsegs if sg.end[0] == 'return' and sg.end[1] == ('k', 1)]
+    bad_t = [sg for sg in tails if len([w for w in sg.writes if w[3] == o]) > 1 or any(w[1] != 0 for w in sg.writes if w[3] == o)]
+    n += 1
+    R.ob('OUT9', fn, None, 'behind the loop one byte, the terminator, is written where the cursor stands', bool(tails) and not bad_t,
+         '%d leaving paths' % len(tails), key='terminator', line=line2)
+    R.floor('OUT9', 'clauses of the output bound of %s' % fn_name, n, 4)
+
+
 # ---- TAB6 UTF-16 / UTF-8 constants ----------------------------------------------------------------------------------------
 
 def tab6(units, R):
